@@ -89,6 +89,32 @@ def check_kernel(kernel, shapes, seeds, tol=1e-8):
                             if np.abs(out[c][~interior] - e[c][~interior]).max() > 0:
                                 return fail(clause='tangential boundary values never written', impl=impl_name, shape=shape,
                                             seed=seed, complex=cplx, nu=nu, component=c)
+                    # (2') sparse data: zero source, field supported on the block relaxed last only (exact zeros in the right-hand sides)
+                    for nu in (1, 2):
+                        cases += 1
+                        zero_s = {c: np.zeros_like(s_rand[c]) for c in 'xyz'}
+                        ee = {c: np.zeros_like(e[c]) for c in 'xyz'}
+                        for c, I in _last_block_edges(kernel, shape, nu):
+                            ee[c][I] = 1.0 + 0.5 * (I[0] + 2 * I[1] + 3 * I[2])
+                        out = _run(impl, ee, zero_s, eta, zeta, h, nu)
+                        A_o = spec_apply(shape, h, out, eta, zeta)
+                        for c, I in _last_block_edges(kernel, shape, nu):
+                            if abs(A_o[c][I]) > tol * 100:
+                                return fail(clause='block relaxed last is solved exactly (zero source, field supported on that block only)', impl=impl_name,
+                                            shape=shape, seed=seed, complex=cplx, nu=nu, edge=(c, I), residual=str(-A_o[c][I]))
+                        # affine with a unit-field increment: S(f + u, s) - S(f, s) == S(u, 0)
+                        u = {c: np.zeros_like(e[c]) for c in 'xyz'}
+                        c0, I0 = _last_block_edges(kernel, shape, nu)[0]
+                        u[c0][I0] = 1.0
+                        fu = {c: e[c] + u[c] for c in 'xyz'}
+                        a = _run(impl, fu, s_rand, eta, zeta, h, nu)
+                        b = _run(impl, e, s_rand, eta, zeta, h, nu)
+                        d0 = _run(impl, u, zero_s, eta, zeta, h, nu)
+                        for c in 'xyz':
+                            dev = np.abs((a[c] - b[c]) - d0[c]).max()
+                            if dev > tol * 100 * max(1.0, np.abs(a[c]).max()):
+                                return fail(clause='affine in (field, source): unit-field increment with zero source', impl=impl_name, shape=shape, seed=seed,
+                                            complex=cplx, nu=nu, component=c, deviation=float(dev))
                     # (4) affine in (field, source)
                     t = 0.3
                     h2, e2, r2, _, _ = make_problem(shape, seed + 7, cplx, pec=True)
